@@ -59,6 +59,10 @@ class DiffState:
   argnum: int
   filter: filterlib.Filter
 
+  def __hash__(self):
+    # a filter may be a (nested) list, which is not hashable
+    return hash((self.argnum, filterlib.to_predicate(self.filter)))
+
 
 @dataclasses.dataclass(eq=False)
 class GradFn:
